@@ -346,6 +346,7 @@ func c13Iso(o *c13Out, progIdx, n int, round int) {
 	select {
 	case <-done:
 	case <-hangAfter(60 * time.Second):
+		noteHang()
 		o.crash("iso-hang", fmt.Sprintf("p%d n%d", progIdx, n))
 		atomic.StoreInt32(&stop, 1)
 		return
@@ -574,6 +575,7 @@ func c13Chan(o *c13Out, scn c13ChanScn, protos [3]*lua.FunctionProto) {
 	select {
 	case <-done:
 	case <-hangAfter(60 * time.Second):
+		noteHang()
 		o.crash("chan-hang", scn.String())
 		return
 	}
